@@ -369,6 +369,34 @@ func rulePruneGuarded(rule string) RuleFn {
 		for _, p := range prunes {
 			hit, path := an.PathTo(fn, nil, an.IsInstr(p), an.NewGates().AddEdges(gate...))
 			c.Check(len(gate) > 0 && hit == nil, rule, "updateGraph prunes only when some error of the chain is visualisable", "PruneSuccess dominated by len(errs) > 0", "PruneSuccess is reachable although no errVisualizer was found in the chain: Visualize with an error that carries no graph information draws an empty container", p, an.BlockPath(c.P, path))
+			// every missing type of the error is handed to the graph: the loop of errMissingTypes.updateGraph over the
+			// error's entries has one straight-line body (no entry is skipped - two missing values of one Go type that
+			// differ by name are two root causes) and an exit only when the range is exhausted
+			if mu := c.P.Func("(dig.errMissingTypes).updateGraph"); mu != nil {
+				c.See(mu)
+				okAll, why := false, "no loop over the missing types"
+				for _, l := range allLoops(mu) {
+					if l.over != "p:e" {
+						continue
+					}
+					okAll, why = true, ""
+					if all, w := loopCoversAll(l); !all {
+						okAll, why = false, w
+					}
+					if len(l.earlyExits()) > 0 {
+						okAll, why = false, "the loop can be left before all missing types were listed"
+					}
+					for b := range l.body {
+						if b == l.header {
+							continue
+						}
+						if _, isIf := b.Instrs[len(b.Instrs)-1].(*ssa.If); isIf {
+							okAll, why = false, "an entry can be skipped under a condition"
+						}
+					}
+				}
+				c.CheckAtPos(okAll, rule, "errMissingTypes.updateGraph lists every missing type", "one entry per element, unconditionally", "not every missing type of the error is marked in the picture ("+why+"): of *Conn[name=primary] and *Conn[name=replica], both missing, only one is painted as root cause", c.P.Pos(mu.Pos()))
+			}
 			// what stays in the error picture: pruneCtors keeps a constructor only when its own ID is in the set of
 			// failed constructors (the found edge of failed[c.ID]); pruneGroups keeps a group only when its own key is in
 			// the set of failed groups. Any other reason to keep one ("provides the same key as a failed result") lets
